@@ -49,7 +49,14 @@ func propC11(w *World, r *Report) {
 		r.Assumes(a)
 	}
 	RunLosslessFor(w, r, "C11", newBoundsRun(w))
-
+	var gl []*ssa.Function
+	for _, f := range w.LibFuncs() {
+		if strings.HasSuffix(fnPkgPath(f), "/glyf") {
+			gl = append(gl, f)
+		}
+	}
+	RunNarrowArith(w, r, gl)
+	RunControl(r, "narrowarith", "ctlNarrowArith", RunNarrowArith)
 }
 
 // RunPadStrip: glyf.Decode strips the padding that Encode added by calling
